@@ -41,8 +41,8 @@ def thorough_only_names(pid):
 
 PROTO_NOTE = (TRUST_COMMON + ' Closure/iterator-adapter bodies of the engine (close handler, session handling, slow start, retry '
               'accounting, reset) are verified after the mechanical desugaring rules D1-D5/R11/R14 of DESIGN.md 1.1. Still entering E-V only '
-              'as assumed contracts (R5 stubs): handle_network_event_incoming_data, handle_network_event_write_completion, '
-              'complete_operation_sequence_as_empty_success, partition_operation_queue_by_queue_policy, sort_operation_deque, '
+              'as assumed contracts (R5 stubs): '
+              'partition_operation_queue_by_queue_policy, sort_operation_deque, '
               'complete_operation_with_result/_error; the bounded engine E-B runs the real functions against those contracts on a stated '
               'small scope. Session handling at CONNACK is verified under A-HANDSHAKE/A-OPS (DESIGN.md 6), evaluated by E-B at every CONNACK. '
               'Encoder/Decoder/alias-resolver are opaque shims inside the engine unit.')
